@@ -114,6 +114,14 @@ func (s Server) ListRegisteredModels(r *admin.ListModelsRequest, stream admin.Co
 func (s Server) RollbackTransaction(ctx context.Context, req *admin.RollbackRequest) (*admin.RollbackResponse, error) {
 	log.Debugf("Received RollbackRequest %+v", req)
 	logContext(ctx, "RollbackTransaction()")
+	// A rollback changes the configuration of every target of the rolled back transaction: it is open to the
+	// callers Set is open to
+	if md := metautils.ExtractIncoming(ctx); md != nil {
+		if err := utils.TemporaryEvaluate(md); err != nil {
+			log.Warn(err)
+			return nil, err
+		}
+	}
 	id := configapi.TransactionID(uri.NewURI(uri.WithScheme("uuid"), uri.WithOpaque(uuid.New().String())).String())
 	t := &configapi.Transaction{
 		ID: id,
